@@ -55,7 +55,7 @@ fn main() {
             let thorough = args[5] == "thorough";
             let choices = args.get(6).map(|f| {
                 let b = std::fs::read(f).expect("choices file");
-                serde_json::from_slice::<Vec<u32>>(&b).expect("choices json")
+                serde_json::from_slice::<Vec<Vec<u32>>>(&b).expect("choices json")
             });
             kit::driver::exec_one(spec, seed, index, thorough, choices);
         }
